@@ -34,7 +34,8 @@ impl<'a> McGroupStatusAnsPayload<'a> {
             return Err(Error::BufferTooShort);
         }
         let status = data[0];
-        let required_len = Self::required_len(status);
+        // the status octet itself plus the group items it announces
+        let required_len = 1 + Self::required_len(status);
         if data.len() < required_len {
             return Err(Error::BufferTooShort);
         }
